@@ -70,6 +70,10 @@ def params_phase(chk, th):
                 chk.violation(clause, detail, script={"module": "LwParams", "init": r["init"], "calls": r["script"]}, sig={"clause": clause})
     chk.traces_validated += cnt
     chk.add_phase("LwParams behaviours replayed into Parameter / ParameterDict", behaviours=cnt, depth=12)
+    chk.count(key="boundary-probes")
+    for clause, detail in pa.boundary_probes():
+        chk.violation(clause, detail, script={"probe": "values a hair outside a bound"}, sig={"clause": clause, "probe": "boundary"})
+    chk.add_phase("floating-point boundary probes (1 ulp .. 1e-9 relative outside a bound)", cases=64)
     tlc.cleanup("C10_params")
 
 
